@@ -195,7 +195,11 @@ Handler ==
   /\ phase' = "respond"
   /\ UNCHANGED <<cfg, wire, batches, cur, n, states, resps, sentCount, srvClosed, cliClosed, cliStalled, hij, log>>
 
-IsHijack(r) == r.kind \in {"hijack", "hijacknr"}
+\* "hijackbody": a hijacking POST whose (streamed, 12 KiB) body the handler leaves unread: the
+\* body belongs to the request, the hijack handler must start AFTER it
+\* "hijackdl": the request got per-request read/write deadlines through Server.HeaderReceived;
+\* the hijacked connection must be handed over without them
+IsHijack(r) == r.kind \in {"hijack", "hijacknr", "hijackbody", "hijackdl"}
 
 \* decide persistence, write the response (unless suppressed by HijackSetNoResponse)
 Respond ==
